@@ -136,12 +136,15 @@ func ketG(v *vctx, eps, orig []epSpec, rf, nq int, series []seriesSpec) (string,
 	if err != nil {
 		return classifyBuildErr(err), nil
 	}
-	for i := 1; i < len(secs); i++ {
-		if secs[i-1].Hash == secs[i].Hash {
-			return "tie", nil
-		}
-	}
+	tie := reportTie(v, eps, secs)
 	rows := rowsOf(ring, orig, series, nq)
+	if tie {
+		// the rows are still handed to the oracles (they show what the tie does); the answer is "tie"
+		return "tie", rows
+	}
+	if !checkSectionHashes(v, eps, secs) {
+		return "hash-mismatch", rows
+	}
 	return showRows(rows), rows
 }
 
